@@ -370,3 +370,27 @@ def mon_c18_queues(sim):
                     bad.append(('C18:started-not-finished-once-at-graceful-end',
                                 '%s transfer %d was started and the session ended gracefully with finished signals %s' % (ep.name, t, finished.get(t, []))))
     return bad
+
+
+def mon_sources_after_close(sim, prefix='C09'):
+    ''' Closed is final for the event loop too: whatever GLib sources a closed contact still has installed
+    (a pending idle call of the TX callback, a `_process_queue` idle source) go away the next time they
+    fire; none keeps itself installed on a closed connection. Run after all other monitors of the
+    scenario: it fires the left-over sources directly (nothing is recorded). '''
+    from tcpcl_sim import LOOP
+    bad = []
+    for ep in sim.eps():
+        if not ep.closed():
+            continue
+        for _ in range(4):
+            srcs = ep.sources()
+            if not srcs:
+                break
+            for s in srcs:
+                LOOP.fire(s)
+        left = ep.sources()
+        if left:
+            bad.append(('%s:source-left-after-close-%s' % (prefix, getattr(left[0].func, '__name__', '?')),
+                        'endpoint %s is closed but %d GLib source(s) of it stay installed after firing four times: %r'
+                        % (ep.name, len(left), left[:3])))
+    return bad
